@@ -6,7 +6,7 @@ from props import dtfam, c03
 
 ID = 'C11'
 PROPS_MODULE = 'Props.C11'
-THEOREMS = ['C11_colifilt', 'C11_rowifilt', 'C11_colfilter', 'C11_c2q']
+THEOREMS = ['C11_colifilt', 'C11_rowifilt', 'C11_colfilter', 'C11_c2q', 'C11_absent_lowpass', 'C11_absent_highs']
 VO = ['theories/Props/C11.vo', 'theories/Run/RunDtcwt.vo', 'theories/Run/RunSpec.vo']
 RULE = ('correspondence A: colifilt/rowifilt full operator matrices (both m/2 parities, both flags, rows below the filter), c2q, inv_j1/inv_j2plus with every presence combination and the '
         'oversize-lowpass crop, DTCWTInverse on integer pyramids with every absent-level subset and absent lowpass; correspondence B: reference colifilt/colfilter closed forms vs the package; '
